@@ -35,6 +35,9 @@ pub struct ProverRun {
     /// to it ("each message is hidden by its own nonce" holds for whatever RNG the prover is handed)
     #[serde(default)]
     pub failing: Option<RngMode>,
+    /// the prover receives a zero-sized handle onto the generator instead of the generator itself
+    #[serde(default)]
+    pub via_handle: bool,
 }
 
 #[derive(Clone, Debug, Serialize, Deserialize)]
@@ -67,7 +70,10 @@ fn execute(sc: &Scenario, st: &mut RunStats) -> Vec<Violation> {
         if run.failing.is_some() {
             st.fault(&format!("rng_{}", mode.kind()));
         }
-        let obs = match observe_prove(&sc.ctxs[run.ctx], &b.params, &b.statement, &b.witness, &mode) {
+        if run.via_handle {
+            st.fault("prover_served_through_zero_sized_handle");
+        }
+        let obs = match crate::faultrng::with_handle(run.via_handle, || observe_prove(&sc.ctxs[run.ctx], &b.params, &b.statement, &b.witness, &mode)) {
             Ok(ProveOutcome::Proved(o)) => o,
             Ok(_) => {
                 out.push(Violation::new("harness:prover_failed", "setup", format!("history[{}] did not produce a proof", hi)));
@@ -259,7 +265,7 @@ impl Check for C13 {
     }
 
     fn rule(&self) -> String {
-        "each seeded run is a history of 12-120 prover runs over 1-3 statements and 1-2 contexts (same witness/statement/context re-proved under different healthy RNG streams; different witnesses; with and without recovery seed; one seed shared by different statements); after each proof all ext*(2*rounds+3)+2 nonces are read as free-module coordinates of A, L_j, R_j, A1, B (gated by the B[H]=r*y*s self-check); one evaluation = one observed proof; distinct = distinct event-log hashes of histories with at least two runs".into()
+        "each seeded run is a history of 12-120 prover runs over 1-3 statements and 1-2 contexts (same witness/statement/context re-proved under different healthy RNG streams; different witnesses; with and without recovery seed; one seed shared by different statements); after each proof all ext*(2*rounds+3)+2 nonces are read as free-module coordinates of A, L_j, R_j, A1, B (gated by the B[H]=r*y*s self-check); one evaluation = one observed proof; distinct = distinct event-log hashes of histories with at least two runs A quarter of the prover runs receive the external RNG as a zero-sized handle onto the simulator's generator; boundary seeds (0, 1, -1, 2^252) are drawn explicitly.".into()
     }
 
     fn assumptions(&self) -> Vec<String> {
@@ -309,6 +315,7 @@ impl Check for C13 {
                 ctx: rng.usize_below(ctxs.len()),
                 stream: rng.next_u64(),
                 failing: if rng.chance(1, 6) { Some(crate::checks::c01::gen_rng_mode(rng, false)) } else { None },
+                via_handle: rng.chance(1, 4),
             })
             .collect();
         // campaign: the same statement and context proved several times with streams that differ
@@ -326,6 +333,7 @@ impl Check for C13 {
                     ctx,
                     stream: seed,
                     failing: Some(if zero || pos < 2 { RngMode::ZeroBlockAt(pos, seed) } else { RngMode::RepeatBlockAt(pos, seed) }),
+                    via_handle: false,
                 });
             }
         }
@@ -377,7 +385,7 @@ impl Check for C13 {
             "seeded_run", "unseeded_run", "same_statement_reproved_under_other_stream", "same_seed_other_statement",
             "within_proof_oracles_under_failing_rng",
             "one_degenerate_read_in_otherwise_different_streams",
-            "seed_is_zero", "seed_is_one", "seed_is_minus_one", "seed_is_two_to_252",
+            "prover_served_through_zero_sized_handle", "seed_is_zero", "seed_is_one", "seed_is_minus_one", "seed_is_two_to_252",
         ]
     }
 }
